@@ -468,9 +468,26 @@ func (s *Solver) solveOne(i int, o *Obligation) {
 	}
 	var answers []solveAnswer
 	decided := o.Status != ""
+	started := time.Now()
+	var grace <-chan time.Time
 	for range solvers {
-		a := <-ch
+		var a solveAnswer
+		select {
+		case a = <-ch:
+		case <-grace:
+			// agreement mode: the other back ends had three times as long as the first one that answered
+			// (at least 15 s); those still running count as "no answer", like a timeout
+			cancel()
+			a = <-ch
+		}
 		answers = append(answers, a)
+		if s.Agreement && grace == nil && (a.verdict == "unsat" || a.verdict == "sat") {
+			d := 2 * time.Since(started)
+			if d < 15*time.Second {
+				d = 15 * time.Second
+			}
+			grace = time.After(d)
+		}
 		if s.Agreement {
 			if a.verdict == "sat" && !o.ExpectSat {
 				o.Status = "failed"
